@@ -140,7 +140,7 @@ theorem execC_mono_aux (ms : MacroSem) (f : Nat) :
         exact bind_ok_of (ihE _ _ _ h1) (ihE _ _ _ h2)
       | jump e => simp only [execC] at h ⊢; exact h
       | skip w => simp only [execC] at h ⊢; exact h
-      | exprstmt e => simp [execC] at h
+      | exprstmt e => simp only [execC] at h ⊢; exact h
       | ret e => simp [execC] at h
       | vcall n x a p => simp [execC] at h
     · intro ss σ σ' h
